@@ -147,7 +147,8 @@ func (self ValueString) iterReset() {
 }
 
 func (self ValueString) IntoIter() func() (Value, bool) {
-	return self.iterNext
+	// Every loop owns its cursor
+	return (*NewValueString(self.Inner)).(ValueString).iterNext
 }
 
 func NewValueString(inner string) *Value {
